@@ -727,7 +727,146 @@ def rule_twice(ctx):
     return res.finish(8)
 
 
+F32_CONSTS = {"EPSILON": Fraction(1, 2 ** 23), "MIN_POSITIVE": Fraction(1, 2 ** 126), "MAX": Fraction(2 ** 128), "MIN": -Fraction(2 ** 128)}
+F64_CONSTS = {"EPSILON": Fraction(1, 2 ** 52), "MIN_POSITIVE": Fraction(1, 2 ** 1022), "MAX": Fraction(2 ** 1024), "MIN": -Fraction(2 ** 1024)}
+
+
+def _const_float(c, e):
+    """(exact value, float type) of a constant float expression, or None"""
+    e = peel_refs(e)
+    kk = e.get("k")
+    if kk == "Lit":
+        try:
+            v = str(e.get("v")).replace("_", "")
+            for suf in ("f32", "f64"):
+                if v.endswith(suf):
+                    v = v[:-3]
+            return Fraction(v)
+        except (ValueError, ZeroDivisionError):
+            return None
+    if kk == "Path" and "def" in e:
+        d = c.dfn(e["def"]) or {}
+        t = (c.ty(e.get("t")) or "").strip()
+        table = F32_CONSTS if t == "f32" else F64_CONSTS if t == "f64" else None
+        if table and d.get("name") in table:
+            return table[d["name"]]
+        return None
+    if kk == "Binary" and e["op"] in ("+", "-", "*", "/"):
+        a, b = _const_float(c, e["l"]), _const_float(c, e["r"])
+        if a is None or b is None:
+            return None
+        if e["op"] == "/":
+            return a / b if b != 0 else None
+        return a + b if e["op"] == "+" else a - b if e["op"] == "-" else a * b
+    if kk == "Unary" and e["op"] == "-":
+        a = _const_float(c, e["e"])
+        return -a if a is not None else None
+    return None
+
+
+def rule_clip(ctx):
+    """Log-loss takes ln(p) and ln(1 - p); the probabilities are clipped into (0, 1) first so that both stay finite.  The
+    clip bounds are constants, and the upper one is written `1 - c`: in floating point that is below one only if c is more
+    than half a unit in the last place of one (f32: c > 2^-25).  A smaller c is absorbed - the bound *is* 1.0, ln(1 - p) is
+    -infinity for a confident prediction and the loss is infinite or NaN for data the property covers."""
+    res = RuleResult("R-C05-clip", "the clip bounds of log_loss lie strictly inside (0, 1) in the float type they are computed in")
+    F = ctx.facts()
+    fns = fns_named(F, "log_loss")
+    if not fns:
+        res.missing_anchor("log_loss")
+    n = 0
+    for fn in fns:
+        c = fn["crate"]
+        r = Render(c)
+        key = fn_key(fn)
+        for y in walk(fn["body"]):
+            lo = hi = None
+            if y.get("k") == "MethodCall" and y["name"] == "clamp" and len(y["args"]) == 2:
+                lo, hi = y["args"]
+                ty = (c.ty(peel_refs(y["args"][0]).get("t")) or "").strip()
+            elif y.get("k") == "Call" and len(y["args"]) == 3 and (c.dfn(strip(y["f"]).get("def")) or {}).get("name") == "clamp":
+                lo, hi = y["args"][1:]
+                ty = (c.ty(peel_refs(y["args"][1]).get("t")) or "").strip()
+            if lo is None:
+                continue
+            n += 1
+            res.instance("%s : `%s`" % (key, r.e(y)[:60]))
+            vlo, vhi = _const_float(c, lo), _const_float(c, hi)
+            if vlo is None or vhi is None or ty not in ("f32", "f64"):
+                res.undecided("%s : clip-bounds" % key, "`%s`: bounds not constant floats (fail closed)" % r.e(y)[:50], fn_loc(fn, y.get("ln")))
+                continue
+            half_ulp_below_one = Fraction(1, 2 ** 25) if ty == "f32" else Fraction(1, 2 ** 54)
+            tiny = Fraction(1, 2 ** 150) if ty == "f32" else Fraction(1, 2 ** 1075)
+            if vhi >= 1 - half_ulp_below_one:
+                res.violate("%s : upper-clip-bound-is-one" % key, "`%s` is 1.0 in %s (the subtracted constant is at most half a unit in the last place of one and is absorbed): ln(1 - p) is -infinity for p = 1" % (r.e(hi)[:40], ty), fn_loc(fn, y.get("ln")))
+            elif vlo <= tiny:
+                res.violate("%s : lower-clip-bound-is-zero" % key, "`%s` is not above zero in %s: ln(p) is -infinity for p = 0" % (r.e(lo)[:40], ty), fn_loc(fn, y.get("ln")))
+            elif vlo >= vhi:
+                res.violate("%s : clip-bounds-crossed" % key, "`%s`: lower bound not below upper bound" % r.e(y)[:50], fn_loc(fn, y.get("ln")))
+            else:
+                res.ok()
+    if fns and not n:
+        res.missing_anchor("the clamp of the probabilities in log_loss")
+    return res.finish(1)
+
+
+def rule_sorted(ctx):
+    """The rows and columns of a confusion matrix are the classes in the order of the class list; for two classes the list is
+    then reversed 'to get the conventional layout' - which presumes it was ascending.  The list is sorted where it is used,
+    or where it is made."""
+    from .shortcut import _fn_of_def
+    res = RuleResult("R-C05-sorted", "the class list a confusion matrix is laid out by is sorted (in confusion_matrix or in the function that returns it)")
+    F = ctx.facts()
+    fns = [f for f in fns_named(F, "confusion_matrix") if any(y.get("k") == "MethodCall" and y["name"] == "combined_labels" for y in walk(f["body"]))]
+    if not fns:
+        res.missing_anchor("confusion_matrix built from combined_labels")
+
+    def sorted_in(fn, loc):
+        return [y for y in walk(fn["body"]) if y.get("k") == "MethodCall" and y["name"].startswith("sort") and peel_refs(y["recv"]).get("local") == loc]
+
+    def tail_local(fn):
+        b = fn["body"]
+        while b.get("k") == "Block" and b.get("e") is not None:
+            b = strip(b["e"])
+        b = peel_refs(b)
+        return b.get("local") if b.get("k") == "Path" else None
+    for fn in fns:
+        c = fn["crate"]
+        r = Render(c)
+        key = fn_key(fn)
+        res.instance(key)
+        let = next((y for y in walk(fn["body"]) if y.get("k") == "LetStmt" and y.get("init") is not None and y["pat"].get("k") == "Bind" and any(z.get("k") == "MethodCall" and z["name"] == "combined_labels" for z in walk(y["init"]))), None)
+        if let is None:
+            res.undecided("%s : class-list" % key, "the class list is not bound to a local (fail closed)", fn_loc(fn))
+            continue
+        if sorted_in(fn, let["pat"]["local"]):
+            res.ok()
+            continue
+        call = next(z for z in walk(let["init"]) if z.get("k") == "MethodCall" and z["name"] == "combined_labels")
+        g = _fn_of_def(F, c, call.get("def"))
+        if g is None:
+            res.undecided("%s : class-list-source" % key, "the list is not sorted here and combined_labels does not resolve to one body (fail closed)", fn_loc(fn, let.get("ln")))
+            continue
+        tl = tail_local(g)
+        sorts = sorted_in(g, tl) if tl is not None else []
+        grows = [y for y in walk(g["body"]) if tl is not None and y.get("k") == "MethodCall" and y["name"] in ("push", "extend", "insert", "append", "extend_from_slice") and peel_refs(y["recv"]).get("local") == tl]
+        last_sort = max((y.get("ln") or 0) for y in sorts) if sorts else None
+        late = [y for y in grows if last_sort is None or (y.get("ln") or 0) > last_sort]
+        ret_ty = g.get("output") or ""
+        if "BTreeSet" in ret_ty:
+            res.ok()
+        elif sorts and not late:
+            res.ok()
+        elif late or (tl is not None and not sorts):
+            why = "`%s` adds to it after the last sort" % Render(g["crate"]).e(late[0])[:40] if late else "it is never sorted"
+            res.violate("%s : class-list-not-sorted" % key, "confusion_matrix does not sort its class list and %s returns one that need not be ascending (%s): the order of rows and columns then follows the order the labels were met in, and the two-class layout (`reverse`) is the conventional one only by accident" % (fn_key(g), why), fn_loc(fn, let.get("ln")))
+        else:
+            res.undecided("%s : class-list-order" % key, "whether the list returned by %s is ascending was not decided (fail closed)" % fn_key(g), fn_loc(fn, let.get("ln")))
+    return res.finish(1)
+
+
 def rules(tier):
     from . import c02
     # the class list of a confusion matrix over a dataset is the key set of its label-count cache: shared with C02
-    return [rule_delegate, rule_degree, rule_orient, rule_roles, rule_count, rule_median, rule_twice, rule_symmetric, rule_reset, c02.rule_counted]
+    from . import bitorder
+    return [rule_clip, rule_sorted, bitorder.make_rule("R-C05-bitorder", {"linfa"}, 1, "the linfa crate (probabilities `Pr`, scores of the metrics)"), rule_delegate, rule_degree, rule_orient, rule_roles, rule_count, rule_median, rule_twice, rule_symmetric, rule_reset, c02.rule_counted]
